@@ -411,7 +411,11 @@ func genSpecForX(p *packages.Package, pc *PkgContracts, executable bool) (string
 			if !ok || v.IsField() || id.Pos() < fd.Pos() || id.Pos() > fd.End() {
 				continue
 			}
-			if !used[v.Name()] || v.Pos() >= anchor.Pos() || v.Parent() == nil || !v.Parent().Contains(anchor.Pos()) {
+			at := anchor.Pos()
+			if ab.After {
+				at = anchor.End()
+			}
+			if !used[v.Name()] || v.Pos() >= at || v.Parent() == nil || !(v.Parent().Contains(at) || v.Parent().End() == at) {
 				continue
 			}
 			objs = append(objs, v)
